@@ -30,6 +30,9 @@ CLAIMED["C08"] = ("PrefixPD", "TLA+ model of the prefix plugin (three matching p
    "DisjointAcrossClients/AllocatorCoversTold/OneAnswerPerIA hold in every state/transition of PrefixPD.tla (TLC exhaustive: 2 clients, 3 blocks, <=2 IA_PDs, <=2 hints, 2-3 messages); ~10^5 message sequences are run on the real plugin and every reply is validated against the monitor.", _PFX_NOTE, "DESIGN.md section 3 C08-C09")
 CLAIMED["C09"] = ("PrefixPD", "same model; RenewAndRepeat / NoGrowthOnRepeat / Remembered as action properties and invariants (TLC exhaustive) and as lens guards over the monitor (what each client was told, promised expiry) on the real plugin's replies",
    "Every executed sequence contains exact renewals, hint-less repeats, several hints and length-0 hints relative to what the client holds; the replays of the four repaired defects run in every tier.", _PFX_NOTE, "DESIGN.md section 3 C08-C09")
+CLAIMED["C10"] = ("StaticFile", "TLA+ model of lease files (line grammar, whole-file parse, last-wins map), per-protocol tables, one-step edits and watcher reloads checked by TLC incl. liveness; all files of <= 3 lines and seeded edit sequences executed on the real plugin (Setup4/Setup6, fsnotify autorefresh observed through reload observation points) and validated by TLC trace checking",
+   "AllOrNothing/Quiescent/Isolation/Eventually hold in StaticFile.tla (TLC exhaustive: 2 MACs, 2 addresses, files <= 2 lines, 2 edits, both protocols); on the real plugin 3770 (protocol, file) pairs are loaded and read back through the handlers, plus dual-stack and autorefresh edit sequences with good/malformed contents.",
+   "trusted: harness/file.go (rendering abstract lines to text, single-syscall edits, handler queries), fsnotify one event per write syscall, TLC; in-place updates only", "DESIGN.md section 3 C10")
 NOT_YET = {}
 
 def main():
